@@ -362,7 +362,7 @@ def run(ctx):
         for k, s in enumerate(SKELETON):
             emit(SCEN, H(s), "skeleton-%d-a" % k)
             emit(SCEN, H(s), "skeleton-%d-b" % k)
-        for name, sc, mev, cap in (("tree3", SCEN, 5 if quick else 6, 600 if quick else 0), ("flat", SCEN2, 5 if quick else 6, 200 if quick else 0)):
+        for name, sc, mev, cap in (("tree3", SCEN, 5 if quick else 6, 600 if quick else 8000), ("flat", SCEN2, 5 if quick else 6, 200 if quick else 3000)):
             hs, ne = export_histories(ctx, name, sc, mev)
             total_edges += ne
             if cap and len(hs) > cap:
@@ -372,7 +372,7 @@ def run(ctx):
             for k, h in enumerate(hs):
                 emit(sc, h, "%s-%d" % (name, k))
     trace = os.path.join(ctx.scratch, "trace.ndjson")
-    p = vlib.run_harness(binary, ["-in", scen_path, "-out", trace, "-seed", str(ctx.seed), "-random", "900" if quick else "30000"], timeout=3000)
+    p = vlib.run_harness(binary, ["-in", scen_path, "-out", trace, "-seed", str(ctx.seed), "-random", "900" if quick else "8000"], timeout=3000)
     ctx.stage("real-run", tlc_histories=n, out=p.stdout.strip())
     ctx.cov["rule"] = ("one case = (queue forest, pod groups, pods with requests, initial preemptibility, how preemptibility is expressed, history, "
                        "settle order) executed on the real PodGroupReconciler/QueueReconciler in a fresh fake store; histories = TLC prediction + "
@@ -388,7 +388,7 @@ def run(ctx):
     ]
     validate(ctx, trace)
     run_operator(ctx, binary)
-    ctx.cov["exhaustive"] = not quick
+    ctx.cov["exhaustive"] = False  # exhaustive in the model; the real code runs a sample of the transition cover unless it fits the cap
 
 
 def replay(ctx, obj):
